@@ -31,7 +31,7 @@ PROPS_K = {
             "what _ext_enabled reads between the exit of an inner and of an outer disable_extensions block is not judged",
             "PackedTensor.to(<non-uint8 dtype>) raising its explicit ValueError is a documented refusal, counted (probe to_int32_refused_as_documented), not judged",
         ],
-        "wall_cap": {"quick": 600, "thorough": 3600},
+        "wall_cap": {"quick": 2400, "thorough": 10800},
         "shrink_budget": 45,
         "batches": {
             "quick": [
